@@ -29,6 +29,8 @@ mod worker_goals;
 mod worker_monitor;
 pub(crate) use worker::current_worker_ordinal;
 pub use worker::GCWorker;
+#[cfg(feature = "mmtk_verif")]
+pub use worker::verif_set_worker_ordinal;
 pub(crate) use worker::GCWorkerShared;
 
 pub(crate) mod gc_work;
